@@ -1069,3 +1069,81 @@ def xmon_c17(cases):
                 out.append((other["id"], bad[0], bad[1], grp))
                 break
     return out
+
+
+def mon_c11(case):
+    """TinyLFU against the exact aged access counts, on the real outputs: lower bound, upper bound 16,
+    exactness with a single key, 0 after clear, reset schedule, no false negatives, consistent comparisons"""
+    if case["kind"] != 5:
+        return None
+    samples = case["cfg"][1]
+    cnt, door, w = {}, set(), 0
+    seen = set()          # distinct hashes ever recorded (never forgotten, not even by clear: "ever")
+    tiny = None
+
+    def try_reset():
+        nonlocal cnt, door, w
+        w += 1
+        if w >= samples:
+            cnt = {h: c // 2 for h, c in cnt.items() if c // 2}
+            door = set()
+            w = 0
+
+    def record(h):
+        seen.add(h)
+        if h in door:
+            cnt[h] = min(15, cnt.get(h, 0) + 1)
+        else:
+            door.add(h)
+        try_reset()
+
+    def exact(h):
+        return cnt.get(h, 0) + (1 if h in door else 0)
+    for step, (op, out, cb, acct, snap) in enumerate(case["lines"], 1):
+        if not op or op[0] in (98, 99) or out == [-1000]:
+            continue
+        ntiny = parse_tiny(snap)
+        c = op[0]
+        if c in (80, 81):
+            record(op[-1])
+        elif c == 82:
+            for h in op[1:]:
+                record(h)
+        elif c == 83:
+            for h in op[2 + op[1]:]:
+                record(h)
+        elif c == 86:
+            try_reset()
+        elif c == 87:
+            cnt, door, w = {}, set(), 0
+        elif c in (84, 85):
+            h = op[-1]
+            e = out[0]
+            if e < exact(h):
+                return step, f"estimate({h}) = {e} is below the exact aged access count {exact(h)} (counted {cnt.get(h, 0)}, doorkeeper {'set' if h in door else 'clear'})"
+            if e > 16:
+                return step, f"estimate({h}) = {e} exceeds 16"
+            if seen <= {h} and e != exact(h):
+                return step, f"only hash {h} was ever recorded but estimate = {e}, exact count = {exact(h)}"
+            if not seen and e != 0:
+                return step, f"estimate({h}) = {e} on an estimator that has recorded nothing"
+            if tiny is not None and t_estimate(tiny, h) != e:
+                return step, f"estimate({h}) = {e} but the sketch and doorkeeper bytes give {t_estimate(tiny, h)}"
+        elif c in (88, 89):
+            h = op[-1]
+            if h in door and out != [1]:
+                return step, f"doorkeeper forgot hash {h} recorded since the last reset (contains = {out})"
+        elif c == 90 and tiny is not None:
+            a, b = op[3], op[4]
+            x, y = t_estimate(tiny, a), t_estimate(tiny, b)
+            want = [int(x == y), int(x <= y), int(x < y), int(x > y), int(x >= y)]
+            if out != want:
+                return step, f"eq/le/lt/gt/ge of hashes {a},{b} = {out} but their estimates are {x} and {y} ({want})"
+        if ntiny is not None:
+            if ntiny["w"] != w:
+                return step, (f"sample-window counter is {ntiny['w']} but {w} accesses/try_resets were recorded since the last reset "
+                              f"(sample size {samples}): the reset schedule is off")
+            if c == 87 and (any(ntiny["words"]) or any(any(r) for r in ntiny["rows"])):
+                return step, "clear left counters or doorkeeper bits behind"
+            tiny = ntiny
+    return None
